@@ -51,3 +51,38 @@ Definition share_is_turnrate : Prop :=
       gT P / (lp P (e_link e) PL * slam U (e_link e)) *
       ((if Nat.eqb i 0 then sinflow U P g st e else sflow U st (e_link e) (i - 1))
        - sflow U st (e_link e) i).
+
+(* ---- the same two clauses on the element-layer MODEL (the regenerated engines), with the results of
+   the two steps produced, not assumed: valid network, state of the right shapes ---- *)
+Definition same_results (U : universe) (r r' : nat * (list R * list R)) : Prop :=
+  fst r = fst r' /\
+  forall i, (i < lN (linkd U (fst r)))%nat ->
+    nth i (fst (snd r)) 0 = nth i (fst (snd r')) 0 /\ nth i (snd (snd r)) 0 = nth i (snd (snd r')) 0.
+
+Definition model_scaling_invariant (E : engine R) : Prop :=
+  forall U (P : params R) g (st : state R) (c : nat -> R),
+    wf_graph g -> validb U g = true ->
+    (forall e, In e (g_edges g) -> wf_link U st (e_link e)) ->
+    (forall e, In e (g_edges g) -> lp P (e_link e) Pturn <> 0) ->
+    (forall e, In e (g_edges g) -> lp P (e_link e) Prhocrit <> 0) ->
+    (forall n, c n <> 0) ->
+    (forall e, In e (g_edges g) -> ssum (sturn P) (out_links g (e_up e)) <> 0) ->
+    exists out out',
+      network_step E U P g no_options st = Ok out /\
+      network_step E U (scale_turn P c g) g no_options st = Ok out' /\
+      Forall2 (same_results U) (o_links out) (o_links out').
+
+Definition model_order_invariant_valid (E : engine R) : Prop :=
+  forall U (P : params R) g g' (st : state R),
+    wf_graph g -> wf_graph g' -> validb U g = true -> validb U g' = true -> same_network g g' ->
+    (forall e, In e (g_edges g) -> wf_link U st (e_link e)) ->
+    (forall e, In e (g_edges g) -> lp P (e_link e) Pturn <> 0) ->
+    (forall e, In e (g_edges g) -> lp P (e_link e) Prhocrit <> 0) ->
+    exists out out',
+      network_step E U P g no_options st = Ok out /\
+      network_step E U P g' no_options st = Ok out' /\
+      forall e r r', In (e, r) (combine (links g) (o_links out)) ->
+                     In (e, r') (combine (links g') (o_links out')) ->
+        forall i, (i < lN (linkd U (e_link e)))%nat ->
+          nth i (fst (snd r)) 0 = nth i (fst (snd r')) 0 /\
+          nth i (snd (snd r)) 0 = nth i (snd (snd r')) 0.
